@@ -56,6 +56,16 @@ def build():
                 Err(Error::HandleRequest(VhostUserError::PartialMessage)) => Ok::<(), Error>(()),
                 other => other }),""")
     u.raw("}")
+    # ShutdownHandle::shutdown as a contract (third session; the scan below stays): the flag is stored BEFORE the socket is shut down, in
+    # both directions, and nothing else happens to the connection state
+    u.raw("impl ShutdownHandle {")
+    u.extracted_fn(lib, "shutdown", within=lib.impl_span(r'^impl ShutdownHandle$'),
+                   sig_rw=[("R8", r'&self\b', '&mut self')],
+                   body_rw=[("R8", r'self\.state\.shutdown_requested\.store\((\w+), Ordering::\w+\)', r'self.state.store_flag(\1)'),
+                            ("R8", r'self\.state\.conn\.shutdown\(Shutdown::(\w+)\)', r'self.state.conn_shutdown(ShutdownHow::\1)')],
+                   contract="""
+        ensures final(self).state.evs@ =~= old(self).state.evs@.push(ShutEv::Flag(true)).push(ShutEv::Sock(ShutdownHow::Both)), // [C16:shutdown-order] the request is recorded first (wait() then classifies the daemon thread's error as a requested shutdown), then the socket is shut down in BOTH directions (unblocks the daemon thread's read; the peer observes end-of-stream)""")
+    u.raw("}")
     # ---- syntactic obligations (order of two calls on a shared object; constants) ----
     strip = u.rw.strip_comments
     sh = strip(lib.fn_body("shutdown", within=lib.impl_span(r'^impl ShutdownHandle$')))
